@@ -569,7 +569,9 @@ int main(int argc, char **argv) {
 
   std::vector< std::string > raycfg;
   if (!th)
-    raycfg = {"2x2x2-uniform", "2x2x2-lowx", "3x1x1-lowx", "4x4x4-corner"};
+    // 2x2x4-zy and 6x4x2-lowzhighy: boxes with pairwise different sides (no two axes may agree in every
+    // quick configuration, see the Cartesian part)
+    raycfg = {"2x2x2-uniform", "2x2x2-lowx", "3x1x1-lowx", "4x4x4-corner", "2x2x4-zy", "6x4x2-lowzhighy"};
   else
     raycfg = {"2x2x2-uniform", "2x2x2-lowx", "4x4x4-lowx", "4x4x4-highx", "4x4x4-corner", "4x4x4-centre", "6x4x2-lowzhighy", "3x1x1-lowx", "2x2x4-zy", "4x4x4-lowx-generic"};
   struct Task {
